@@ -1,6 +1,6 @@
 (* C15 — property theorems (statements only; proofs live in Proofs.v). *)
 From Coq Require Import ZArith NArith Bool List.
-Require Import QV.C15.Model QV.C15.Spec QV.C15.Proofs.
+Require Import QV.C15.Model QV.C15.Spec QV.C15.Proofs QV.C15.Proofs_upd QV.C15.Proofs_prep.
 Import ListNotations.
 Open Scope Z_scope.
 
@@ -101,25 +101,113 @@ Theorem C15_flatten_commutes : forall us f d todo l,
 Proof. exact fab_update. Qed.
 Print Assumptions C15_flatten_commutes.
 
-(* Tabor, partial: update_volatile_parameters keeps the shape of the tables (which table / waveform every entry refers
-   to, the volatile marks) and every reported modification carries the new value of the count recorded at that
-   position.  The full statement (below, not proved; evaluated as check_spec on every correspondence case) also says
-   that the entries at the recorded positions equal the new counts, that nothing else changes and that the map is
-   exactly the set of changed entries, which needs the recorded positions to address distinct table cells -- false
-   for the unchanged code when tables are shared (known finding C15-tabor-shared-volatile-table). *)
-Theorem C15_tabor_update_partial : forall us ps adv tabs adv' tabs' ms,
+(* Tabor: update_volatile_parameters never changes which table / waveform an entry refers to nor the volatile marks,
+   and every reported modification carries the new value of the count recorded at that position (no guard needed) *)
+Theorem C15_tabor_update_shape : forall us ps adv tabs adv' tabs' ms,
   update_positions us ps adv tabs = (adv', tabs', ms) ->
   map snd adv' = map snd adv /\ shape_tabs tabs' = shape_tabs tabs /\
   forall m, In m ms -> exists r, In (mod_pos m, r) ps /\ mod_count m = newval us r.
 Proof. exact update_positions_shape. Qed.
-Print Assumptions C15_tabor_update_partial.
+Print Assumptions C15_tabor_update_shape.
 
-Definition C15_tabor_update_statement : Prop :=
-  forall us st st' ms,
+(* Tabor, the update step in full.  A recorded position resolves to a memory cell (advanced entry a, or entry q of the
+   sequencer table the advanced entry points to).  If recorded positions that resolve to the same cell agree on the
+   new value (guard_C15_shared_table; positions addressing pairwise distinct cells are the special case below) then
+   after update_volatile_parameters: every recorded position holds the new value of its count, no other cell
+   changes, the returned map names exactly the cells whose count changed and carries the new count together with the
+   element stored in that cell; the waveform list, the table shapes and the recorded positions are kept. *)
+Theorem C15_tabor_update : forall us st st' ms,
+  update_tabor us st = (st', ms) ->
+  guard_C15_shared_table us st = true ->
+  map snd (t_adv st') = map snd (t_adv st) /\ shape_tabs (t_tabs st') = shape_tabs (t_tabs st) /\
+  t_wfs st' = t_wfs st /\ t_single st' = t_single st /\
+  t_pos st' = map (fun pr => (fst pr, upd_rep us (snd pr))) (t_pos st) /\
+  (forall p r c, In (p, r) (t_pos st) -> cell_of (t_adv st) p = Some c -> read (t_adv st) (t_tabs st) c <> None ->
+                 read (t_adv st') (t_tabs st') c = Some (newval us r)) /\
+  (forall c, (forall p r, In (p, r) (t_pos st) -> cell_of (t_adv st) p <> Some c) ->
+             read (t_adv st') (t_tabs st') c = read (t_adv st) (t_tabs st) c) /\
+  (forall c, read (t_adv st') (t_tabs st') c <> read (t_adv st) (t_tabs st) c <->
+             exists m, In m ms /\ cell_of (t_adv st) (mod_pos m) = Some c) /\
+  (forall m, In m ms -> exists c, cell_of (t_adv st) (mod_pos m) = Some c /\
+                                  read (t_adv st') (t_tabs st') c = Some (mod_count m) /\
+                                  elem_at (t_adv st) (t_tabs st) c = Some (mod_elem m)).
+Proof. exact update_tabor_cells. Qed.
+Print Assumptions C15_tabor_update.
+
+Theorem C15_tabor_update_distinct : forall us st st' ms,
+  update_tabor us st = (st', ms) ->
+  cells_distinct (t_adv st) (t_pos st) = true ->
+  (forall p r c, In (p, r) (t_pos st) -> cell_of (t_adv st) p = Some c -> read (t_adv st) (t_tabs st) c <> None ->
+                 read (t_adv st') (t_tabs st') c = Some (newval us r)) /\
+  (forall c, read (t_adv st') (t_tabs st') c <> read (t_adv st) (t_tabs st) c <->
+             exists m, In m ms /\ cell_of (t_adv st) (mod_pos m) = Some c).
+Proof. exact update_tabor_cells_distinct. Qed.
+Print Assumptions C15_tabor_update_distinct.
+
+(* without the guard the statement is false of the faithful model: the compiled witness of the known finding
+   C15-tabor-shared-volatile-table (two tables whose counts n*m-m+1 agree at n=1 under m=2 / m=3 share one sequencer
+   table; after the update n=2 the first recorded position does not hold its new value) *)
+Theorem C15_tabor_update_refuted :
+  exists st us st' ms p r c,
+    shared_state = Some st /\ update_tabor us st = (st', ms) /\
+    In (p, r) (t_pos st) /\ cell_of (t_adv st) p = Some c /\ read (t_adv st) (t_tabs st) c <> None /\
+    read (t_adv st') (t_tabs st') c <> Some (newval us r) /\
+    guard_C15_shared_table us st = false.
+Proof. exact update_tabor_shared_refuted. Qed.
+Print Assumptions C15_tabor_update_refuted.
+
+(* the guard is satisfiable by a compiled program whose sequencer tables ARE shared (so the positions are not
+   cell-distinct) and whose update changes table entries *)
+Theorem C15_tabor_update_nonvacuous :
+  exists st us st' ms,
+    coherent_state = Some st /\ update_tabor us st = (st', ms) /\
+    guard_C15_shared_table us st = true /\ cells_distinct (t_adv st) (t_pos st) = false /\ ms <> [].
+Proof. exact update_tabor_nonvacuous. Qed.
+Print Assumptions C15_tabor_update_nonvacuous.
+
+(* prepare_program_for_advanced_sequence_mode (merge with neighbour, partial unrolling, split_one_child, extension by
+   a neighbour's iteration): if the compilation raised no VolatileModificationWarning and the compilation of the
+   updated tables takes the same decisions (the ghost list of decisions is equal: every count-dependent test falls on
+   the same branch), then compile . update = update . compile on the list of sequence tables.  No guard for a finding
+   is needed after the repairs 1ee1549 / 25f27a3 / 86f493f. *)
+Theorem C15_prepare_commutes : forall us f mn mx i tabs tabs' tr tabs2 w2,
+  prepare f mn mx i tabs false = Ok (tabs', false, tr) ->
+  prepare f mn mx i (map (update us) tabs) false = Ok (tabs2, w2, tr) ->
+  tabs2 = map (update us) tabs' /\ w2 = false.
+Proof. exact prepare_update. Qed.
+Print Assumptions C15_prepare_commutes.
+
+(* ... together with flatten_and_balance(2): setup_advanced_sequence_mode up to the parser *)
+Theorem C15_adv_tables_commute : forall us f mn mx t1 tabs tr tabs2 w2,
+  adv_tables f mn mx t1 = Ok (tabs, false, tr) ->
+  adv_tables f mn mx (update us t1) = Ok (tabs2, w2, tr) ->
+  tabs2 = map (update us) tabs /\ w2 = false.
+Proof. exact adv_tables_update. Qed.
+Print Assumptions C15_adv_tables_commute.
+
+Theorem C15_prepare_nonvacuous : exists us f mn mx tabs tabs' tr,
+  prepare f mn mx 0 tabs false = Ok (tabs', false, tr) /\
+  prepare f mn mx 0 (map (update us) tabs) false = Ok (map (update us) tabs', false, tr) /\
+  map (update us) tabs' <> tabs' /\
+  existsb (fun d => match d with DSkip => false | _ => true end) tr = true.
+Proof. exact prepare_update_nonvacuous. Qed.
+Print Assumptions C15_prepare_nonvacuous.
+
+(* the same-decisions hypothesis cannot be dropped: an update can flip a count-dependent decision *)
+Theorem C15_prepare_refuted : exists us f mn mx tabs tabs' tr tabs2 w2 tr2,
+  prepare f mn mx 0 tabs false = Ok (tabs', false, tr) /\
+  prepare f mn mx 0 (map (update us) tabs) false = Ok (tabs2, w2, tr2) /\
+  tr2 <> tr /\ tabs2 <> map (update us) tabs'.
+Proof. exact prepare_update_needs_same_trace. Qed.
+Print Assumptions C15_prepare_refuted.
+
+(* NOT proved (evaluated executably by check_spec, clause 3, on every Tabor case): the parser step.  With
+   C15_adv_tables_commute the fresh compilation parses `map (update us) tabs`; what is missing is that
+   parse_aseq_program of the updated tables, when it shares the same tables, yields the updated parsed state. *)
+Definition C15_tabor_recompile_statement : Prop :=
+  forall us tabs st st2 st' ms,
+    parse_aseq 0 tabs (mkT [] [] [] [] false) = Ok st ->
+    parse_aseq 0 (map (update us) tabs) (mkT [] [] [] [] false) = Ok st2 ->
+    map snd (t_adv st2) = map snd (t_adv st) ->
     update_tabor us st = (st', ms) ->
-    (* every recorded position holds the freshly evaluated count ... *)
-    (forall a r el old, In (PAdv a, r) (t_pos st) -> nth_error (t_adv st) a = Some (old, el) ->
-                        nth_error (t_adv st') a = Some (newval us r, el)) /\
-    (* ... and the modification map names exactly the advanced entries that changed *)
-    (forall a, (exists c el, In (TMod (PAdv a) c el) ms) <->
-               (exists x y, nth_error (t_adv st) a = Some x /\ nth_error (t_adv st') a = Some y /\ fst x <> fst y)).
+    tab_view st' = tab_view st2.
